@@ -1,5 +1,6 @@
 import RedoModel.DoFiles
 import RedoModel.Props.C13b
+import RedoModel.Props.C13c
 import RedoModel.Lemmas.Paths
 /-!
 # C13 — .do rule selection order and script arguments
